@@ -22,6 +22,8 @@ func main() {
 		runTx()
 	case "script":
 		runScript()
+	case "filelog":
+		runFileLog()
 	default:
 		fmt.Fprintf(os.Stderr, "unknown subcommand %q\n", os.Args[1])
 		os.Exit(2)
